@@ -3,12 +3,14 @@
 
   Proved for every prefix, delimiter and page size: the per-page facts (size bound, soundness of
   every item and every rolled-up prefix, no prefix twice on a page, items in stored order, each
-  item's metadata is the stored record).  Proved for every prefix and page size **without
-  delimiter**: the complete pagination theorem.  The complete pagination theorem **with** delimiter
-  is stated (`FullStatement`) but not proved here; that case rests on the correspondence check,
-  which enumerates small name universes exhaustively (see DESIGN.md).
+  item's metadata is the stored record), and the complete pagination theorem `FullStatement`, both
+  without delimiter (`full_statement_without_delimiter`) and with any non-empty delimiter, multi-byte
+  ones included (`full_statement_with_delimiter`): following the tokens yields every matching name
+  without delimiter after the prefix exactly once in order, every distinct rolled-up prefix exactly
+  once, in pages of at most `maxResults`, ending with a page without token.
 -/
 import Emu.Proofs.Listing
+import Emu.Proofs.ListingDelim2
 import Emu.Proofs.Gcs
 
 namespace Emu.Props.C11
@@ -55,6 +57,53 @@ theorem full_statement_without_delimiter (names : List Bytes) (hs : NamesSorted 
       rw [List.filterMap_eq_nil_iff]; intro n _; simp [collapse]
     simp [expectedPrefixes, hfm]
   · intro p hp; rw [(h2 p hp).2]; simpa using (h2 p hp).1
+
+open Emu.Proofs.ListingDelim in
+/-- **Complete pagination with a delimiter** (any sorted set of non-empty names, any prefix, any
+    non-empty delimiter — multi-byte ones included —, any page size ≥ 1): following the tokens
+    yields as items exactly the names that start with the prefix and have no delimiter after it,
+    each once, in ascending order; as prefixes exactly the distinct rolled-up prefixes, each once, in
+    order of first appearance; no page holds more than `max` entries; the last page has no token.
+    (Names that roll up into the same prefix are contiguous in a sorted list, a page always consumes
+    such a block entirely, and the next page starts right after it.) -/
+theorem full_statement_with_delimiter (names : List Bytes) (hs : NamesSorted names)
+    (hne : ∀ n ∈ names, n ≠ []) (pfx delim : Bytes) (hd : delim ≠ []) (max : Nat) (hmax : max ≥ 1) :
+    FullStatement names pfx delim max := by
+  have hbe := blockEnd_nil pfx delim hd names
+  have hlen : (beyond pfx [] names).length ≤ names.length := List.length_filter_le _ _
+  obtain ⟨h1, h2, h3⟩ := listAll_delim names hs pfx delim max hmax names.length [] hbe hlen (names.length + 2) (by omega)
+  have hby : beyond pfx [] names = names.filter (fun n => Bytes.hasPrefix n pfx) := by
+    unfold beyond
+    apply List.filter_congr
+    intro n hn
+    have : ([] : Bytes) < n := by
+      cases n with
+      | nil => exact absurd rfl (hne _ hn)
+      | cons a t => simp
+    simp [this]
+  refine ⟨?_, ?_, ?_, h3⟩
+  · rw [h1, hby]
+    unfold uitems expectedItems
+    rw [List.filter_filter]
+    apply List.filter_congr
+    intro n _
+    exact Bool.and_comm _ _
+  · rw [h2, hby]
+    unfold newPrefs expectedPrefixes
+    have hf : ∀ l : List Bytes, l.filter (fun cp => !([] : List Bytes).contains cp) = l := by
+      intro l; rw [List.filter_eq_self]; intro _ _; simp
+    rw [hf, filterMap_filter_if]
+  · intro p hp
+    obtain ⟨c1, c2, _⟩ := listAll_pages_ok names pfx delim max _ _ p hp
+    omega
+
+/-- **The property's listing clause, in full**: for every sorted set of non-empty names, every
+    prefix, every delimiter (none, one byte, several bytes) and every page size ≥ 1. -/
+theorem full_statement (names : List Bytes) (hs : NamesSorted names) (hne : ∀ n ∈ names, n ≠ [])
+    (pfx delim : Bytes) (max : Nat) (hmax : max ≥ 1) : FullStatement names pfx delim max := by
+  cases delim with
+  | nil => exact full_statement_without_delimiter names hs hne pfx max hmax
+  | cons a t => exact full_statement_with_delimiter names hs hne pfx (a :: t) (by simp) max hmax
 
 /-- No page ever holds more than `maxResults` entries, items and prefixes together, and no
     rolled-up prefix appears twice on a page — for every delimiter. -/
